@@ -92,7 +92,7 @@ tr(const char * fmt, ...)
 static uint64_t st_waits, st_peeks, st_consumes, st_cancels, st_eof, st_err,
     st_bytes_seen, st_grow, st_writes, st_reserves, st_zero, st_bytes_sent,
     st_fail_cb, st_after_fail, st_big_waits, st_cancel_partial,
-    st_consume_pending, st_huge_waits, st_duplex, st_duplex_wfree, st_duplex_rfree, st_ssl;
+    st_consume_pending, st_huge_waits, st_duplex, st_duplex_wfree, st_duplex_rfree, st_ssl, st_after_eof;
 
 static void
 viol(const char * key, const char * fmt, ...)
@@ -378,6 +378,34 @@ scenario_reader(uint64_t key)
 				    k, (unsigned long long)(total - consumed));
 			(void)check_peek(NR, f, consumed, 0, "after EOF");
 			over = 1;
+			/*
+			 * The reader's second life: what arrived before the end of the
+			 * stream is still there, so a wait for no more than that must
+			 * succeed at once (and a longer one meets the end again).
+			 */
+			if (total - consumed > 0 && vh_chance(&R, 1, 2)) {
+				size_t left = (size_t)(total - consumed);
+				size_t k2 = 1 + (size_t)vh_below(&R, left);
+				struct wreq q2 = { 0, 0, 0 };
+
+				st_after_eof++;
+				if (netbuf_read_wait(NR, k2, wait_cb, &q2))
+					viol("reader:wait-failed", "netbuf_read_wait(%zu) after EOF failed", k2);
+				else if (!run_until(&q2.done, 8000000)) {
+					viol("reader:no-callback", "wait(%zu) after EOF with %zu unconsumed bytes "
+					    "buffered never completed", k2, left);
+					netbuf_read_wait_cancel(NR);
+				} else if (q2.status != 0)
+					viol("reader:eof-instead-of-data", "after EOF was reported, wait(%zu) with %zu "
+					    "unconsumed bytes buffered reported status %d", k2, left, q2.status);
+				else {
+					tr(" wait(%zu)->0 after EOF", k2);
+					(void)check_peek(NR, f, consumed, k2, "after a successful wait following EOF");
+					netbuf_read_consume(NR, k2);
+					consumed += k2;
+					(void)check_peek(NR, f, consumed, 0, "after consuming past EOF");
+				}
+			}
 		} else if (q.status == -1) {
 			st_err++;
 			if (f->n_inerr == err0)
@@ -789,7 +817,8 @@ main(int argc, char ** argv)
 	    (unsigned long long)st_bytes_sent, (unsigned long long)st_fail_cb, (unsigned long long)st_after_fail,
 	    (unsigned long long)simk_npoll, (unsigned long long)simk_nrecv, (unsigned long long)simk_nsend);
 	(void)st_grow;
-	printf("STAT cases_with_descriptor_0_free %llu\nSTAT cases_over_the_function_pointer_transport %llu\n",
-	    (unsigned long long)st_fd0_free, (unsigned long long)st_ssl);
+	printf("STAT cases_with_descriptor_0_free %llu\nSTAT cases_over_the_function_pointer_transport %llu\n"
+	    "STAT waits_after_eof_for_buffered_bytes %llu\n",
+	    (unsigned long long)st_fd0_free, (unsigned long long)st_ssl, (unsigned long long)st_after_eof);
 	return (0);
 }
